@@ -36,7 +36,7 @@ RULE = ('systems of 1–5 chemicals drawn from Water, Ethanol, Methanol, Propano
         'Toluene under three packages (ideal γ; Dortmund γ; Dortmund γ + ideal-gas Poynting factor); compositions with '
         'zeros, traces (1e-9…1e-4) and unnormalised totals; per system 3–6 operations out of: point solve '
         '(4 methods, k ∈ {1e-3,1,1e3}), T→P→T / P→T→P round trip, bubble-vs-dew ordering at given T or P, '
-        'scaling z ↦ k·z, permutation of the chemical list, the same call under a second package, call histories on one BubblePoint/DewPoint pair through ONE float ndarray buffer overwritten / scaled in place between calls (same and alternating T/P specifications);  T in [max(260, Psat.Tmin, Tsat_i(5 kPa)), 480] K, '
+        'scaling z ↦ k·z (k ∈ {1e-3, 1, 1e3, 0.5, 2} and, as a monitored class for N ≥ 2, 1e-25 … 1e25), permutation of the chemical list, the same call under a second package, call histories on one BubblePoint/DewPoint pair through ONE float ndarray buffer overwritten / scaled in place between calls (same and alternating T/P specifications);  T in [max(260, Psat.Tmin, Tsat_i(5 kPa)), 480] K, '
         'P in [5e3, 3e6] Pa between the pure-component saturation pressures; non-trivial = at least one solve with '
         'N ≥ 2 components present; distinct = distinct (system, op list)')
 ASSUMPTIONS = [
@@ -102,6 +102,14 @@ PKG_KEY = [(0, 0, 0), (1, 0, 0), (1, 0, 1), (1, 1, 0)]        # (gamma class, ph
 RES_TOL_MULTI, RES_TOL_SINGLE, FRAC_TOL = 1e-5, 1e-5, 1e-4
 T_SAME, P_SAME = 2e-3, 2e-5
 KS = [1e-3, 1.0, 1e3]
+
+
+def extreme_k(rng):
+    """a scale factor far outside {1e-3, 1, 1e3}: totals down to 1e-25 and up to 1e25 (monitored class, N ≥ 2 only: the
+    result must depend on z/Σz alone however small or large Σz is — `fn.normalize`'s `Σ < 1e-16 ⇒ equal fractions` floor is
+    meant for empty arrays, not for compositions)"""
+    e = rng.choice([rng.uniform(-25, -17), rng.uniform(-25, -17), rng.uniform(-16, -5), rng.uniform(5, 16), rng.uniform(17, 25)])
+    return float('%.3e' % (10 ** e))
 
 tmo = np = None
 CH = {}
@@ -712,7 +720,7 @@ def run_impl(case: Case) -> ImplResult:
             a = r.solve(method, spec, z)
             b = r.solve(method, spec, z * k, label=f'[k={k:g}]')
             r.same(method[-1], a, b, f'{method} {ids} z={z.tolist()} spec={spec!r}: z vs {k:g}·z', f'scale:{method}')
-            r.tags.add(f'k={k:g}')
+            r.tags.add(f'k={k:g}' if 1e-4 < k < 1e4 else ('k<1e-16' if k < 1e-16 else 'k>1e16' if k > 1e16 else 'k-far'))
         elif op == 'buf':
             # a history on ONE BubblePoint / DewPoint object pair in which the caller reuses ONE float ndarray as the
             # composition buffer, updating it in place between calls.  step = method:spec:<z,…> (overwrite in place) |
@@ -923,7 +931,9 @@ def gen_case(rng, tier, force=None):
             m = rng.choice(METHODS)
             spec = gen_spec(rng, ids, 'P' if m.endswith('T') else 'T')
             if spec is None: continue
-            ops.append(f'pt {m} {spec!r} {rng.choice(KS)!r} {zs(z)}')
+            k = rng.choice(KS)
+            if rng.random() < 0.15 and sum(1 for v in z if v > 0) >= 2: k = extreme_k(rng)
+            ops.append(f'pt {m} {spec!r} {k!r} {zs(z)}')
         elif r < 0.45:
             start = rng.choice('TP')
             spec = gen_spec(rng, ids, start)
@@ -938,7 +948,9 @@ def gen_case(rng, tier, force=None):
             m = rng.choice(METHODS)
             spec = gen_spec(rng, ids, 'P' if m.endswith('T') else 'T')
             if spec is None: continue
-            ops.append(f'scale {m} {spec!r} {rng.choice([1e-3, 1e3, 1e-3, 1e3, 2.0, 0.5])!r} {zs(z)}')
+            k = rng.choice([1e-3, 1e3, 1e-3, 1e3, 2.0, 0.5])
+            if rng.random() < 0.25 and sum(1 for v in z if v > 0) >= 2: k = extreme_k(rng)
+            ops.append(f'scale {m} {spec!r} {k!r} {zs(z)}')
         elif r < 0.77 and n > 1:
             b = gen_buf(rng, ids)
             if b: ops.append(b)
@@ -1088,6 +1100,21 @@ def gen_neighbour_case(rng, which):
     return Case(ops, {'neighbour': which})
 
 
+def gen_extreme_k_case(rng):
+    """N ≥ 2 compositions scaled by 1e-25 … 1e25, all four methods (bubble and dew alike)"""
+    n = rng.choice([2, 2, 3, 4])
+    ids = rng.sample(NAMES, n)
+    pkg = rng.choice([0, 1, 1, 2])
+    while True:
+        z = gen_z(rng, n)
+        if sum(1 for v in z if v > 0) >= 2: break
+    ops = [f'sys {pkg} {",".join(ids)}']
+    for m in METHODS:
+        spec = gen_spec(rng, ids, 'P' if m.endswith('T') else 'T')
+        if spec is not None: ops.append(f'scale {m} {spec!r} {extreme_k(rng)!r} {zs(z)}')
+    return Case(ops, {'extreme-k': True}) if len(ops) > 1 else None
+
+
 def gen_fallback_case(rng):
     n = rng.choice([2, 2, 3, 4])
     ids = rng.sample(NAMES, n)
@@ -1140,7 +1167,7 @@ def gen_share(rng, tier, v):
         if len(perms) > 24 and q: perms = rng.sample(perms, 24)
         for p in perms:
             ops.append(f'perm {m} {spec!r} {",".join(map(str, p))} {zs(z)}')
-        for k in KS:
+        for k in KS + ([extreme_k(rng), extreme_k(rng)] if sum(1 for v in z if v > 0) >= 2 else []):
             for mm in METHODS:
                 sp = gen_spec(rng, ids, 'P' if mm.endswith('T') else 'T')
                 if sp is not None: ops.append(f'scale {mm} {sp!r} {k!r} {zs(z)}')
@@ -1162,6 +1189,10 @@ def gen_share(rng, tier, v):
     # the bracketing fallbacks of the four solve methods (primary solver made to fail)
     for _ in range(2 if q else 12):
         c = gen_fallback_case(rng)
+        if c is not None: yield c
+    # totals far outside {1e-3, 1, 1e3}·Σz
+    for _ in range(2 if q else 10):
+        c = gen_extreme_k_case(rng)
         if c is not None: yield c
     # neighbourhoods of the witnesses of listed findings
     for i in range(2 if q else len(NEIGHBOURS)):
@@ -1209,6 +1240,10 @@ def corpus():
              {'edge': 'lower'}),
         Case(['sys 1 Octane,Toluene', 'rt bub T 568.24 1.0,0.0', 'pt dewT 2466095.8 1.0 1.0,0.0', 'trace bubT 2430000.0 1e-10 1.0,0.0'],
              {'edge': 'upper'}),
+        # totals far outside the usual scale: Σz = 1e-20 and 1e20 (N ≥ 2)
+        Case(['sys 1 Water,Ethanol', 'scale bubT 101325.0 1e-20 0.5,0.5', 'scale dewT 101325.0 1e-20 0.5,0.5',
+              'scale dewP 355.0 3e-17 0.2,0.8', 'scale bubP 355.0 1e-25 0.2,0.8', 'scale dewT 101325.0 1e+20 0.3,0.7',
+              'scale bubT 101325.0 1e+20 0.3,0.7'], {'extreme-k': True}),
         # specification beyond the critical point of the only chemical present
         Case(['sys 1 Hexane,Pentane', 'pt bubP 475.0 1.0 0.0,1.0', 'pt dewP 475.0 1.0 0.0,2.0', 'pt bubP 469.0 1.0 0.0,1.0',
               'pt dewP 469.7 1.0 0.0,1.0'], {'critical': 'T'}),
